@@ -79,8 +79,11 @@ def gen(tier, rng):
             for f in ['', '.trait', '.wrapper', '.wrapper_ref']:
                 add(Case('uint.wrapping_neg' + f, [a], mop='uint.wrapping_neg'))
             add(Case('uint.wrapping_neg_if', [a, rng.randrange(2)]))
-            a, b = pair(rng, n); c = limbs(rng, n)
-            add(Case('uint.checked_expr', [a, b, c, rng.randrange(2), rng.randrange(2), rng.randrange(16)]))
+            for shape in (0, 1):
+                a, b = pair(rng, n); c = limbs(rng, n)
+                if rng.random() < 0.5: c = to_limbs(rng.randrange(4), n)       # small third operand: the outer op itself stays in range
+                if shape == 1 and rng.random() < 0.5: a, b, c = c, a, b      # overflow inside the right operand
+                add(Case('uint.checked_expr', [a, b, c, rng.randrange(2), rng.randrange(2), rng.randrange(16), shape]))
     # BoxedUint, equal and different precisions
     for _ in range(250 * scale):
         n = rng.choice([1, 2, 3, 4, 5, 7, 8, 16, 17, 31, 32, 33, 40]) if rng.random() < 0.7 else rng.randrange(1, 41)
